@@ -384,7 +384,7 @@ func (cs *ContractSet) parseFile(pkgPath, file string) error {
 				return fmt.Errorf("%s:%d: duplicate define %s", file, lineNo, d.Name)
 			}
 			cs.Defines[d.Name] = d
-		case "secret", "secretresult", "nosecret":
+		case "secret", "secretresult", "nosecret", "onlysecret":
 			d := &SecretDecl{PkgPath: pkgPath, Kind: kw, File: file, Line: lineNo}
 			for _, f := range strings.Fields(rest) {
 				if strings.HasPrefix(f, "@") {
